@@ -52,6 +52,12 @@ type Sub struct {
 	Wire  []byte                    // its wire encoding (what the server's stream reads)
 }
 
+// pkt is one queued request packet.
+type pkt struct {
+	b      []byte
+	shared bool // submitted with SubmitShared: never modified by anyone
+}
+
 // Gate blocks Send on every stream of one peer while held.
 type Gate struct {
 	mu   sync.Mutex
@@ -154,14 +160,24 @@ func (h *Harness) ReleaseAll() {
 	for _, g := range gs {
 		g.Release()
 	}
+	for _, c := range h.Calls() {
+		c.Unstall()
+	}
 }
 
-// AnyGateHeld reports whether some gate is armed.
+// AnyGateHeld reports whether some gate is armed or some call is stalled.
 func (h *Harness) AnyGateHeld() bool {
 	h.mu.Lock()
-	defer h.mu.Unlock()
+	cs := append([]*Call(nil), h.calls...)
 	for _, g := range h.gates {
 		if g.Held() {
+			h.mu.Unlock()
+			return true
+		}
+	}
+	h.mu.Unlock()
+	for _, c := range cs {
+		if c.Stalled() {
 			return true
 		}
 	}
@@ -178,7 +194,7 @@ type Call struct {
 
 	ctx    context.Context
 	cancel context.CancelFunc
-	in     chan []byte // wire-encoded requests (MarshalVT at Submit)
+	in     chan pkt // wire-encoded requests (MarshalVT at Submit)
 	gate   *Gate
 
 	StartClock int64
@@ -193,6 +209,13 @@ type Call struct {
 	err       error
 	atGate    bool
 	done      chan struct{}
+
+	// per-call stall (a stalled connection: the server's Send blocks until the
+	// harness releases it, whether or not the stream was cancelled meanwhile)
+	stalled  bool
+	stallCh  chan struct{}
+	atStall  bool
+	consumed atomic.Int64 // requests the server's Recv has taken so far
 }
 
 func (c *Call) String() string {
@@ -205,7 +228,7 @@ func (c *Call) String() string {
 func (h *Harness) newCall(src peer.ID, listen bool) *Call {
 	ctx, cancel := context.WithCancel(context.WithValue(context.Background(), identKey{}, src))
 	c := &Call{H: h, Listen: listen, Src: src.String(), ctx: ctx, cancel: cancel,
-		in: make(chan []byte, 512), done: make(chan struct{})}
+		in: make(chan pkt, 512), done: make(chan struct{})}
 	c.gate = h.Gate(c.Src)
 	h.mu.Lock()
 	c.Idx = len(h.calls)
@@ -246,6 +269,25 @@ func (h *Harness) StartSession(src peer.ID, dst string) *Call {
 	return c
 }
 
+// StartSessionDeferred starts Server.Session on a new stream authenticated as
+// src whose client has not sent its Init{dst} yet: the server call is parked in
+// its first Recv until SubmitInit. (Registration then takes only the time the
+// server needs, without the start-up latency of a new call.)
+func (h *Harness) StartSessionDeferred(src peer.ID, dst string) *Call {
+	c := h.newCall(src, false)
+	c.Dst = dst
+	go func() {
+		err := h.Srv.Session(&SessionStream{c: c})
+		c.finish(err)
+	}()
+	return c
+}
+
+// SubmitInit submits the honest Init{Dst} of a call made by StartSessionDeferred.
+func (c *Call) SubmitInit() int64 {
+	return c.Submit(&signaling.SessionRequest{Body: &signaling.SessionRequest_Init{Init: &signaling.SessionInit{PeerId: c.Dst}}})
+}
+
 // StartListen starts Server.Listen on a new stream authenticated as src.
 func (h *Harness) StartListen(src peer.ID) *Call {
 	c := h.newCall(src, true)
@@ -281,7 +323,7 @@ func (c *Call) SubmitWire(req *signaling.SessionRequest, wire []byte) int64 {
 	c.subs = append(c.subs, Sub{Clock: t, Req: cp, Wire: wire})
 	c.mu.Unlock()
 	select {
-	case c.in <- wire:
+	case c.in <- pkt{b: wire}:
 	case <-c.ctx.Done():
 	}
 	return t
@@ -296,6 +338,57 @@ func (c *Call) Kill() {
 	}
 	c.mu.Unlock()
 	c.cancel()
+}
+
+// Stall makes the call's stream a stalled connection: the next Send of the
+// server on it blocks until Unstall, EVEN IF the stream is cancelled or the call
+// is replaced meanwhile (a write stuck in a full socket buffer does not notice
+// the cancellation). Everything else (Recv, context) behaves as before.
+func (c *Call) Stall() {
+	c.mu.Lock()
+	if !c.stalled {
+		c.stalled = true
+		c.stallCh = make(chan struct{})
+	}
+	c.mu.Unlock()
+}
+
+// Unstall lets a stalled Send complete.
+func (c *Call) Unstall() {
+	c.mu.Lock()
+	if c.stalled {
+		c.stalled = false
+		close(c.stallCh)
+	}
+	c.mu.Unlock()
+}
+
+// Stalled reports whether the call's stream is stalled.
+func (c *Call) Stalled() bool { c.mu.Lock(); defer c.mu.Unlock(); return c.stalled }
+
+// AtStall reports whether the server is blocked in a Send on the stalled stream.
+func (c *Call) AtStall() bool { c.mu.Lock(); defer c.mu.Unlock(); return c.atStall }
+
+// Consumed returns how many requests the server's Recv has taken (decoded) on
+// this call so far, the Init included.
+func (c *Call) Consumed() int64 { return c.consumed.Load() }
+
+// Submitted returns how many requests the harness has submitted on this call.
+func (c *Call) Submitted() int64 { c.mu.Lock(); defer c.mu.Unlock(); return int64(len(c.subs)) }
+
+// SubmitShared queues a (large) request without taking private copies: req and
+// wire must never be modified by the caller afterwards. The server side still
+// decodes its own object from a copy of the packet.
+func (c *Call) SubmitShared(req *signaling.SessionRequest, wire []byte) int64 {
+	c.mu.Lock()
+	t := c.H.Tick()
+	c.subs = append(c.subs, Sub{Clock: t, Req: req, Wire: wire})
+	c.mu.Unlock()
+	select {
+	case c.in <- pkt{b: wire, shared: true}:
+	case <-c.ctx.Done():
+	}
+	return t
 }
 
 // Killed reports whether the harness killed the stream.
@@ -336,6 +429,19 @@ func (c *Call) LastOpen() (string, uint64) {
 
 // send is the common part of the fake streams' Send.
 func (c *Call) send(it Item) error {
+	c.mu.Lock()
+	var st chan struct{}
+	if c.stalled {
+		st = c.stallCh
+		c.atStall = true
+	}
+	c.mu.Unlock()
+	if st != nil {
+		<-st // not even a cancellation ends a stalled write
+		c.mu.Lock()
+		c.atStall = false
+		c.mu.Unlock()
+	}
 	if err := c.ctx.Err(); err != nil {
 		return err
 	}
@@ -370,16 +476,16 @@ type SessionStream struct{ c *Call }
 func (s *SessionStream) Context() context.Context { return s.c.ctx }
 
 // readOne returns the next wire-encoded request.
-func (s *SessionStream) readOne() ([]byte, error) {
+func (s *SessionStream) readOne() (pkt, error) {
 	// a dead stream fails even if requests are still queued
 	if err := s.c.ctx.Err(); err != nil {
-		return nil, err
+		return pkt{}, err
 	}
 	select {
 	case b := <-s.c.in:
 		return b, nil
 	case <-s.c.ctx.Done():
-		return nil, s.c.ctx.Err()
+		return pkt{}, s.c.ctx.Err()
 	}
 }
 
@@ -396,13 +502,22 @@ func (s *SessionStream) Recv() (*signaling.SessionRequest, error) {
 }
 func (s *SessionStream) RecvTo(m *signaling.SessionRequest) error { return s.MsgRecv(m) }
 func (s *SessionStream) MsgRecv(msg srpc.Message) error {
-	b, err := s.readOne()
+	p, err := s.readOne()
 	if err != nil {
 		return err
 	}
 	// the packet buffer belongs to the reader from here on (as with a real
-	// stream); the harness keeps its own copy in Subs
-	return msg.UnmarshalVT(append([]byte(nil), b...))
+	// stream); the harness keeps its own copy in Subs. (A SubmitShared packet is
+	// decoded in place: the generated UnmarshalVT copies every bytes field, and
+	// an extra copy of a multi-MiB buffer is very expensive under the race
+	// detector.)
+	b := p.b
+	if !p.shared {
+		b = append([]byte(nil), b...)
+	}
+	err = msg.UnmarshalVT(b)
+	s.c.consumed.Add(1)
+	return err
 }
 
 // Send / MsgSend marshal what the server sends (at the moment of the call, as
